@@ -220,11 +220,13 @@ func (p *prop) Gen(r *vh.Rng, tier string, n int) []vh.Case {
 		cases = append(cases, vh.Case{Lines: []string{line}, Nontrivial: nontrivial})
 	}
 	if tier == "thorough" && n > 0 {
-		// every container of the official key space present, with and without runs
+		// many containers of the official key space, with and without runs (all 65536 of them:
+		// extra check `official-65536-containers`; the list-based model is quadratic in the count)
 		cases = append(cases,
-			vh.Case{Lines: []string{"off s 0 K0..65535:a:7"}, Nontrivial: true},
-			vh.Case{Lines: []string{"off b 2 K0..65535:a:7-9"}, Nontrivial: true},
-			vh.Case{Lines: []string{"imp b 0 - o2 K0..65535:a:7-9"}, Nontrivial: true})
+			vh.Case{Lines: []string{"off s 0 K0..2047:a:7"}, Nontrivial: true},
+			vh.Case{Lines: []string{"off b 2 K0..1023:a:7-9"}, Nontrivial: true},
+			vh.Case{Lines: []string{"off s 1 K100..1200:a:7-9,11"}, Nontrivial: true},
+			vh.Case{Lines: []string{"imp b 0 - o2 K0..511:a:7-9"}, Nontrivial: true})
 	}
 	return cases
 }
